@@ -134,14 +134,18 @@ func run(ctx *Ctx) *Result {
 		runStrip(ctx, res, drv)
 		r := ctx.Rng.Fork()
 		if ctx.Thorough() {
-			cases = append(cases, genExhaustive("ar", nil, []string{msg1, msg2, msg01, msgA}, 1)...)
-			cases = append(cases, genExhaustive("ra", map[int]string{0: "INFO: x\n", 1: "WARNING: w\n", 2: "\n"}, []string{msg1, msg2}, 1)...)
-			cases = append(cases, genExhaustive("rd", map[int]string{1: "failed\n"}, []string{msg1, msg2}, 1)...)
-			cases = append(cases, genExhaustive("rr", nil, []string{msg01, msg2}, 3)...)
+			cases = append(cases, genExhaustive("ar", nil, []string{msg1, msg2, msg01, msgA}, 1, false)...)
+			cases = append(cases, genExhaustive("ar", nil, []string{msg1, msg2}, 1, true)...)
+			cases = append(cases, genExhaustive("ra", map[int]string{0: "INFO: x\n", 1: "WARNING: w\n", 2: "\n"}, []string{msg1, msg2}, 1, false)...)
+			cases = append(cases, genExhaustive("rd", map[int]string{1: "failed\n"}, []string{msg1, msg2}, 1, true)...)
+			cases = append(cases, genExhaustive("rr", nil, []string{msg01, msg2}, 3, false)...)
 			cases = append(cases, genRandom(r, 6000)...)
 		} else {
-			cases = append(cases, genExhaustive("ar", nil, []string{msg1, msg2}, 5)...)
-			cases = append(cases, genExhaustive("r", map[int]string{0: "INFO: x\n", 1: "WARNING: w\n"}, []string{msg1}, 1)...)
+			// both dialogue variants of the device (with / without `Save? [yes/no]`), banners at every offset
+			cases = append(cases, genExhaustive("ar", nil, []string{msg1, msg2}, 5, false)...)
+			cases = append(cases, genExhaustive("ar", nil, []string{msg1, msg2}, 5, true)...)
+			cases = append(cases, genExhaustive("r", map[int]string{0: "INFO: x\n", 1: "WARNING: w\n"}, []string{msg1}, 1, false)...)
+			cases = append(cases, genExhaustive("a", nil, []string{msg2, msg1}, 1, true)...)
 			cases = append(cases, genRandom(r, 500)...)
 		}
 		cases = append(cases, genFaults(ctx.Thorough())...)
@@ -228,6 +232,11 @@ func judge(ctx *Ctx, res *Result, drv *Nadrv, c *Case, o *WOutcome, base *WOutco
 		}
 	}
 	res.Count(fmt.Sprintf("sends:%d", len(o.Changes)))
+	if c.NoAsk {
+		res.Count("dialogue-variant:no-save-question")
+	} else {
+		res.Count("dialogue-variant:save-question")
+	}
 	res.Eval(caseKey(c), nBanner > 0 || nBad > 0 || len(c.Special) > 0)
 	res.Sample(in)
 
